@@ -38,13 +38,14 @@ Proof.
 Qed.
 
 (* fewer iterators anywhere: still fine *)
-Lemma saf_weaken : forall r its its' next, Saf r its next -> (forall id, parked its' id <= parked its id) ->
+Lemma saf_weaken : forall r its its' next, Saf r its next -> (forall id, id <> 0 -> parked its' id <= parked its id) ->
   (forall h it, In (h, it) its' -> it_prefix it = None /\ it_root it = 0) -> NoDup (map fst its') -> Saf r its' next.
 Proof.
   intros r its its' next [W S HV I A E P H] Hle HP HH. constructor; auto.
   - apply (proj1 all_of_paths). intros p tn G. pose proof (paths_of_all _ _ _ _ A G) as X.
-    destruct X as [X|X]; [left; auto|right]. specialize (Hle (n_id (t_info tn))). lia.
-  - intros id H1 H2. apply E; auto. specialize (Hle id). lia.
+    destruct X as [X|X]; [left; auto|].
+    destruct (Nat.eq_dec (n_id (t_info tn)) 0) as [e|e]; [left; auto|right]. specialize (Hle _ e). lia.
+  - intros id H1 H2. apply E; auto. specialize (Hle id H2). lia.
 Qed.
 
 Lemma find_some : forall r id, (forall x, cnt_t r x <= 1) -> 1 <= cnt_t r id ->
